@@ -19,6 +19,13 @@ REPLAY = ("replay_drivers.C05", "replay")
 _SYMS = {}
 
 
+def _ud_untouched(sim, UD_orig):
+    """the stoichiometric matrices the interface hands out (the model's own arrays) hold the very same entries"""
+    U0, u0, D0, d0 = UD_orig
+    return sim.U is U0 and sim.D is D0 and all(a is b for a, b in zip([U0[i, j] for i in range(U0.shape[0]) for j in range(U0.shape[1])], u0)) \
+        and all(a is b for a, b in zip([D0[i, j] for i in range(D0.shape[0]) for j in range(D0.shape[1])], d0))
+
+
 def _report(c, cond, label, sig=None, syms=None):
     facets = getattr(c, "facets", None)
     if facets is not None and ":" in label[:20] and label.split(":")[0] not in facets:
@@ -51,6 +58,8 @@ def step_job(interp, c, case, rules=False, facets=None):
     _SYMS.clear()
     _SYMS["dt"] = dt
     x0_orig, p_orig = list(x0), list(sim.params)
+    UD_orig = (sim.U, [sim.U[i_, j_] for i_ in range(sim.U.shape[0]) for j_ in range(sim.U.shape[1])],
+               sim.D, [sim.D[i_, j_] for i_ in range(sim.D.shape[0]) for j_ in range(sim.D.shape[1])])
     if rules:
         sim.havoc_rules()          # rules are an arbitrary map of the state
     simulator = sim_mod.ns["SSASimulator"]()
@@ -176,7 +185,7 @@ def step_job(interp, c, case, rules=False, facets=None):
             "x' = x + S[:,j]", "ssa step relation")
     if not is_sym(L["current_index"]):
         ci_new = L["current_index"]          # later obligations are stated against the loop's own new row index
-    _report(c, all(a is b for a, b in zip(sim.x0, x0_orig)) and all(a is b for a, b in zip(sim.params, p_orig)),
+    _report(c, all(a is b for a, b in zip(sim.x0, x0_orig)) and all(a is b for a, b in zip(sim.params, p_orig)) and _ud_untouched(sim, UD_orig),
             "model-untouched: the interface's initial-state and parameter arrays are never written by the loop", "ssa loop writes the model")
     inv = [ci_new <= T]
     if ci_new < T:
@@ -252,6 +261,9 @@ def check(tier):
     for i, cse in enumerate(cs):
         ck.add("step/S%dR%dT%d/ci%d" % cse, "harness.C05", "step_job", dict(cases=[cse]))
     ck.add("samplers", "harness.C05", "sampler_job", dict(cases=[(1,), (2,), (3,)] + ([(4,)] if tier == "thorough" else [])))
+    # "initial counts": a simulation through an interface starts from the model's CURRENT initial condition
+    ck.add("initial-condition-followed", "harness.C08", "follow_job",
+           dict(cases=[("species", r_, s_) for r_ in (False, True) for s_ in (False, True)]), fresh=True)
     # "the model's stochastic propensities": what the plain and the safe interface hand to the loop, reaction by reaction,
     # in models with one and with two reactions (C01's closed forms; integer states)
     from . import C01
